@@ -32,6 +32,40 @@ pub struct M2 {
 pub struct SvcA;
 pub struct SvcB;
 pub struct SvcC;
+/// two service types that register under one and the same service name
+pub struct SvcD1;
+pub struct SvcD2;
+
+impl RpcService for SvcD1 {
+    fn service_name() -> &'static str {
+        "shared-name"
+    }
+    fn register_handlers(r: &mut ServiceRegistry<Self>) {
+        r.add_handler::<M1>();
+    }
+}
+impl RpcService for SvcD2 {
+    fn service_name() -> &'static str {
+        "shared-name"
+    }
+    fn register_handlers(r: &mut ServiceRegistry<Self>) {
+        r.add_handler::<M2>();
+    }
+}
+#[datacake_rpc::async_trait]
+impl Handler<M1> for SvcD1 {
+    type Reply = u64;
+    async fn on_message(&self, msg: Request<M1>) -> Result<u64, Status> {
+        Ok(msg.x.value() + 4_000)
+    }
+}
+#[datacake_rpc::async_trait]
+impl Handler<M2> for SvcD2 {
+    type Reply = u64;
+    async fn on_message(&self, msg: Request<M2>) -> Result<u64, Status> {
+        Ok(msg.y.value() as u64 + 4_500)
+    }
+}
 
 impl RpcService for SvcA {
     fn register_handlers(r: &mut ServiceRegistry<Self>) {
@@ -79,7 +113,8 @@ impl Handler<M2> for SvcC {
     }
 }
 
-/// step alphabet: 0 add A, 1 add B, 2 add C, 3 remove A, 4 remove B, 5 remove C
+/// step alphabet: 0 add A, 1 add B, 2 add C, 3 remove A, 4 remove B, 5 remove C,
+/// 6 add D1, 7 add D2 (both named "shared-name"), 8 remove "shared-name"
 #[derive(serde::Serialize, serde::Deserialize, Clone, Debug)]
 pub struct Scenario {
     pub events: Vec<u8>,
@@ -91,20 +126,22 @@ pub struct Scenario {
 pub struct C13;
 
 const PORT: u16 = 9100;
+const ALPHABET: u64 = 9;
+const STEP_NAMES: [&str; 9] = ["+A ", "+B ", "+C ", "-A ", "-B ", "-C ", "+D1 ", "+D2 ", "-D "];
 
 enum Ctl {
     Step(u8, tokio::sync::oneshot::Sender<()>),
 }
 
 fn enum_total(len: usize) -> u64 {
-    (0..=len as u32).map(|l| 6u64.pow(l)).sum()
+    (0..=len as u32).map(|l| ALPHABET.pow(l)).sum()
 }
 
 /// idx-th sequence in length-lexicographic order over the 6-symbol alphabet
 fn nth_sequence(mut idx: u64) -> Vec<u8> {
     let mut len = 0u32;
     loop {
-        let c = 6u64.pow(len);
+        let c = ALPHABET.pow(len);
         if idx < c {
             break;
         }
@@ -113,8 +150,8 @@ fn nth_sequence(mut idx: u64) -> Vec<u8> {
     }
     let mut v = vec![0u8; len as usize];
     for i in (0..len as usize).rev() {
-        v[i] = (idx % 6) as u8;
-        idx /= 6;
+        v[i] = (idx % ALPHABET) as u8;
+        idx /= ALPHABET;
     }
     v
 }
@@ -133,7 +170,7 @@ impl Check for C13 {
         "E2: one server host (real datacake-rpc Server over simulated TCP/HTTP2) and one client host (real RpcClient); services A{M1}, B{M1,M2}, C{M2} are added and removed on the running server"
     }
     fn rule(&self) -> &'static str {
-        "Cases: every add/remove history over the alphabet {add A, add B, add C, remove A, remove B, remove C} up to length 4 (1 555 histories, quick) or 5 (9 331, thorough), enumerated completely, plus seeded histories of length 6-14. After every step the client sends all four (service, message) pairs - A/M1, B/M1, B/M2, C/M2 - sequentially or concurrently. Oracle: a pair is answered by its own handler (reply identifies the service) iff its service was added and not removed since, otherwise refused with ServiceUnavailable; removing one service never changes the answer of another. Non-trivial = the history contains a removal while another service is registered. Distinct = the history itself."
+        "Cases: every add/remove history over the alphabet {add A, add B, add C, remove A, remove B, remove C, add D1, add D2, remove \"shared-name\"} (D1 and D2 are two service types registered under one name with different messages) over that 9-step alphabet up to length 4 (7 381 histories, quick) or 5 (66 430, thorough), enumerated completely, plus seeded histories of length 6-14. After every step the client sends all six (service, message) pairs - A/M1, B/M1, B/M2, C/M2, shared-name/M1, shared-name/M2 - sequentially or concurrently. Oracle: a pair is answered by its own handler (reply identifies the service) iff its service was added and not removed since, otherwise refused with ServiceUnavailable; removing one service never changes the answer of another. Non-trivial = the history contains a removal while another service is registered. Distinct = the history itself."
     }
     fn assumptions(&self) -> Vec<String> {
         vec!["registry changes and probes are sequenced (a probe is sent after the step completed); in-flight probes during a change are sent too but only required not to panic or hang".into()]
@@ -157,14 +194,14 @@ impl Check for C13 {
         }
         let mut rng = rng_from(case_seed(seed, idx));
         let n = rng.gen_range(6..=14);
-        serde_json::to_value(Scenario { events: (0..n).map(|_| rng.gen_range(0..6u8)).collect(), net_seed: rng.gen(), concurrent_probes: rng.gen_bool(0.5) }).unwrap()
+        serde_json::to_value(Scenario { events: (0..n).map(|_| rng.gen_range(0..ALPHABET as u8)).collect(), net_seed: rng.gen(), concurrent_probes: rng.gen_bool(0.5) }).unwrap()
     }
     fn execute(&self, scenario: &Value) -> Outcome {
         let sc: Scenario = match serde_json::from_value(scenario.clone()) {
             Ok(s) => s,
             Err(e) => return Outcome::invalid(format!("bad scenario: {e}")),
         };
-        if sc.events.iter().any(|s| *s > 5) {
+        if sc.events.iter().any(|s| *s as u64 >= ALPHABET) {
             return Outcome::invalid("bad step");
         }
         let out = Rc::new(RefCell::new(Outcome::default()));
@@ -188,7 +225,10 @@ impl Check for C13 {
                         2 => server.add_service(SvcC),
                         3 => server.remove_service(SvcA::service_name()),
                         4 => server.remove_service(SvcB::service_name()),
-                        _ => server.remove_service(SvcC::service_name()),
+                        5 => server.remove_service(SvcC::service_name()),
+                        6 => server.add_service(SvcD1),
+                        7 => server.add_service(SvcD2),
+                        _ => server.remove_service("shared-name"),
                     }
                     let _ = done.send(());
                 }
@@ -202,34 +242,73 @@ impl Check for C13 {
         sim.client("client", async move {
             let addr: SocketAddr = (turmoil::lookup("server"), PORT).into();
             let chan = Channel::connect(addr);
-            let mut reg: BTreeSet<u8> = BTreeSet::new(); // 0=A 1=B 2=C
+            // model: the set of (service, message) pairs currently registered
+            // 0=A/M1 1=B/M1 2=B/M2 3=C/M2 4=shared/M1 (D1) 5=shared/M2 (D2)
+            let mut reg: BTreeSet<u8> = BTreeSet::new();
             let mut hist = String::new();
             for (i, s) in steps.iter().enumerate() {
                 let (tx, rx) = tokio::sync::oneshot::channel();
                 let _ = ctl_tx.send(Ctl::Step(*s, tx));
                 let _ = rx.await;
-                let svc = s % 3;
-                if *s < 3 {
-                    reg.insert(svc);
-                } else {
-                    reg.remove(&svc);
+                match *s {
+                    0 => {
+                        reg.insert(0);
+                    },
+                    1 => {
+                        reg.insert(1);
+                        reg.insert(2);
+                    },
+                    2 => {
+                        reg.insert(3);
+                    },
+                    3 => {
+                        reg.remove(&0);
+                    },
+                    4 => {
+                        reg.remove(&1);
+                        reg.remove(&2);
+                    },
+                    5 => {
+                        reg.remove(&3);
+                    },
+                    6 => {
+                        reg.insert(4);
+                    },
+                    7 => {
+                        reg.insert(5);
+                    },
+                    _ => {
+                        reg.remove(&4);
+                        reg.remove(&5);
+                    },
                 }
-                hist.push_str(["+A ", "+B ", "+C ", "-A ", "-B ", "-C "][*s as usize]);
+                hist.push_str(STEP_NAMES[*s as usize]);
                 let ca = RpcClient::<SvcA>::new(chan.clone());
                 let cb = RpcClient::<SvcB>::new(chan.clone());
                 let cc = RpcClient::<SvcC>::new(chan.clone());
+                let cd1 = RpcClient::<SvcD1>::new(chan.clone());
+                let cd2 = RpcClient::<SvcD2>::new(chan.clone());
                 let m1 = M1 { x: i as u64 };
                 let m2 = M2 { y: i as u32, s: "probe".into() };
                 let conv = |r: Result<datacake_rpc::DataView<u64>, Status>| -> Result<u64, (ErrorCode, String)> { r.map(|v| v.value()).map_err(|e| (e.code, e.message)) };
                 let results: Vec<(&str, u8, u64, Result<u64, (ErrorCode, String)>)> = if concurrent {
-                    let (a, b, c, d) = tokio::join!(ca.send(&m1), cb.send(&m1), cb.send(&m2), cc.send(&m2));
-                    vec![("A/M1", 0, i as u64 + 1_000, conv(a)), ("B/M1", 1, i as u64 + 2_000, conv(b)), ("B/M2", 1, i as u64 + 2_500, conv(c)), ("C/M2", 2, i as u64 + 3_000, conv(d))]
+                    let (a, b, c, d, e, f) = tokio::join!(ca.send(&m1), cb.send(&m1), cb.send(&m2), cc.send(&m2), cd1.send(&m1), cd2.send(&m2));
+                    vec![
+                        ("A/M1", 0, i as u64 + 1_000, conv(a)),
+                        ("B/M1", 1, i as u64 + 2_000, conv(b)),
+                        ("B/M2", 2, i as u64 + 2_500, conv(c)),
+                        ("C/M2", 3, i as u64 + 3_000, conv(d)),
+                        ("shared-name/M1", 4, i as u64 + 4_000, conv(e)),
+                        ("shared-name/M2", 5, i as u64 + 4_500, conv(f)),
+                    ]
                 } else {
                     vec![
                         ("A/M1", 0, i as u64 + 1_000, conv(ca.send(&m1).await)),
                         ("B/M1", 1, i as u64 + 2_000, conv(cb.send(&m1).await)),
-                        ("B/M2", 1, i as u64 + 2_500, conv(cb.send(&m2).await)),
-                        ("C/M2", 2, i as u64 + 3_000, conv(cc.send(&m2).await)),
+                        ("B/M2", 2, i as u64 + 2_500, conv(cb.send(&m2).await)),
+                        ("C/M2", 3, i as u64 + 3_000, conv(cc.send(&m2).await)),
+                        ("shared-name/M1", 4, i as u64 + 4_000, conv(cd1.send(&m1).await)),
+                        ("shared-name/M2", 5, i as u64 + 4_500, conv(cd2.send(&m2).await)),
                     ]
                 };
                 let mut o = o2.borrow_mut();
@@ -240,13 +319,13 @@ impl Check for C13 {
                         (Ok(v), true) => o.violate("C13/answered-by-the-wrong-handler", format!("history {hist}: {name} answered {v}, its own handler would answer {want}")),
                         (Ok(v), false) => o.violate(
                             "C13/removed-or-never-added-service-still-served",
-                            format!("history {hist}: {name} was answered ({v}) although its service is not registered (registered: {:?})", reg),
+                            format!("history {hist}: {name} was answered ({v}) although its service is not registered (registered pairs: {:?})", reg),
                         ),
                         (Err((ErrorCode::ServiceUnavailable, _)), false) => {},
                         (Err((code, msg)), false) => o.violate("C13/unregistered-service-refused-with-wrong-error", format!("history {hist}: {name} -> {:?} {msg}", code)),
                         (Err((code, msg)), true) => o.violate(
                             "C13/registered-service-refused",
-                            format!("history {hist}: {name} refused with {:?} ({msg}) although its service is registered (registered: {:?})", code, reg),
+                            format!("history {hist}: {name} refused with {:?} ({msg}) although its service is registered (registered pairs: {:?})", code, reg),
                         ),
                     }
                 }
@@ -260,16 +339,18 @@ impl Check for C13 {
             o.anomalies.push(format!("simulation ended with: {e}"));
         }
         let removal_with_other = {
+            let svc_of = |s: u8| -> u8 { match s { 0 | 3 => 0, 1 | 4 => 1, 2 | 5 => 2, _ => 3 } };
             let mut reg: BTreeSet<u8> = BTreeSet::new();
             let mut yes = false;
             for s in &sc.events {
-                if *s >= 3 && reg.iter().any(|r| *r != s % 3) {
+                let is_remove = matches!(*s, 3 | 4 | 5 | 8);
+                if is_remove && reg.iter().any(|r| *r != svc_of(*s)) {
                     yes = true;
                 }
-                if *s < 3 {
-                    reg.insert(s % 3);
+                if is_remove {
+                    reg.remove(&svc_of(*s));
                 } else {
-                    reg.remove(&(s % 3));
+                    reg.insert(svc_of(*s));
                 }
             }
             yes
